@@ -16,6 +16,7 @@ func All() []Program {
 		{Name: "generics3", Files: map[string]string{"main.go": genMain, "lib/lib.go": genLib, "mid/mid.go": genMid}},
 		{Name: "conc", Files: map[string]string{"main.go": concMain}},
 		{Name: "dispatch", Files: map[string]string{"main.go": dispMain, "shapes/shapes.go": dispShapes}},
+		{Name: "linkname", Files: map[string]string{"main.go": linkMain, "impl/impl.go": linkImpl}},
 	}
 }
 
@@ -436,5 +437,47 @@ func main() {
 	g := (*shapes.Circle).Area
 	h := shapes.NewSq(4).Area
 	out(itoa(f(shapes.Rect{2, 5})) + " " + itoa(g(&shapes.Circle{2})) + " " + itoa(h()))
+}
+`
+
+const linkImpl = `package impl
+
+type Counter struct{ n int }
+
+func (c *Counter) bump(by int) int { c.n += by; return c.n }
+
+func (c Counter) peek() int { return c.n }
+
+func hidden(a, b int) int { return a*10 + b }
+`
+
+const linkMain = `package main
+
+import (
+	_ "unsafe"
+
+	"ROOT/impl"
+)
+
+//go:linkname hidden ROOT/impl.hidden
+func hidden(a, b int) int
+
+// The directive below is separated from its declaration by a blank line and
+// other declarations, which the Go toolchain accepts.
+
+//go:linkname bump ROOT/impl.(*Counter).bump
+
+var unrelated = 3
+
+func bump(c *impl.Counter, by int) int
+
+//go:linkname peek ROOT/impl.Counter.peek
+func peek(c impl.Counter) int
+
+func main() {
+	out(itoa(hidden(4, 2) + unrelated))
+	c := &impl.Counter{}
+	bump(c, 5)
+	out(itoa(bump(c, 2)) + " " + itoa(peek(*c)))
 }
 `
